@@ -60,6 +60,11 @@ func (c *Ctx) importKeyRule(rule string) {
 			}
 			return
 		}
+		if t.Is("const", `"unsafe"`) {
+			// the one package that go/types gives no *types.Package for a basic type to answer Path() with; path and name coincide
+			r.Check(rule, k, c.Pos(pos), true, "")
+			return
+		}
 		if t.Kind == "extract" && t.Args[0].Kind == "next" {
 			r.Check(rule, k, c.Pos(pos), true, "")
 			return
@@ -286,7 +291,7 @@ func (c *Ctx) assignmentKindsRule(rule string) {
 // converterSetRule: the facts recorded on a converter come from the same, successful, source.
 func (c *Ctx) converterSetRule(rule string) {
 	r := c.R
-	r.Rule(rule, "FieldConverter.Set(arg, ret, errFlag): either all three are the results of one lookupConverterFunc call taken on its nil-error edge, or (SrcVar().Type(), DstVar().Type(), RetError()) of one and the same generated method")
+	r.Rule(rule, "FieldConverter.Set(arg, ret, errFlag): either all three are the results of one lookupConverterFunc call taken on its nil-error edge, or (SrcVar().Type(), DstVar().Type(), RetError()) of one and the same generated method, which is reached only if that method has no additional arguments (the converter call passes the source alone)")
 	setName := "(*" + pOpt + "FieldConverter).Set"
 	lookup := "(*" + pPar + "Parser).lookupConverterFunc"
 	sites := c.CallsTo(setName)
@@ -310,6 +315,15 @@ func (c *Ctx) converterSetRule(rule string) {
 			m2 := t2.Find(func(t *core.Term) bool { return t.IsCallTo("(*" + pBM + "MethodEntry).DstVar") })
 			ok = m1 != nil && m2 != nil && t3.IsCallTo(fnMethodRetError) && m1.Args[0].String() == m2.Args[0].String() && m2.Args[0].String() == t3.Args[0].String()
 			why = "for a to-be-generated function the converter must record SrcVar/DstVar/RetError() of that one method; got (" + t1.String() + ", " + t2.String() + ", " + t3.String() + ")"
+			if ok {
+				// the call is emitted with the source alone: a method with additional arguments cannot be a converter
+				m := m1.Args[0].String()
+				noExtra := c.atMost(lenOf(func(t *core.Term) bool {
+					return t.IsCallTo("(*"+pBM+"MethodEntry).AdditionalArgVars") && t.Args[0].String() == m
+				}), 0)
+				r.Check(rule, sprintf("%s:Set%d:no-additional-arguments", FnKey(s.Fn), i+1), c.Pos(s.Pos()), d.Implies(noExtra),
+					"a to-be-generated function with additional arguments is accepted as converter although the call is emitted with the source as its only argument (`Conv(src.In)` for `Conv(*In, int) *Out` does not compile); reach: "+d.Describe(c.O))
+			}
 		}
 		r.Check(rule, sprintf("%s:Set%d", FnKey(s.Fn), i+1), c.Pos(s.Pos()), ok, why)
 	}
